@@ -97,6 +97,7 @@ def _ctx(scn, idx):
         # how each still-registered stream came to be considered terminated: a CANCEL or ERROR was seen on it, or it just completed
         reasons = set()
         retained = set()
+        both_ended = True       # of every retained stream that did terminate: have BOTH of its directions ended (by frames seen at this endpoint)?
         for s in e.get('streams', []):
             mine = [x for x in ev[:idx] if x['ep'] == e['ep'] and x['sid'] == s and x['ev'] in ('enq', 'rx')]
             seen = set(x['ft'] for x in mine)
@@ -114,8 +115,15 @@ def _ctx(scn, idx):
             elif own_c and peer_c:
                 reasons.add('complete')
                 retained.add(kind)
+            if 'CANCEL' in seen or 'ERROR' in seen:
+                # a direction ends with its sender's COMPLETE / ERROR or with its receiver's CANCEL
+                own_dir = own_c or any(x['ev'] == 'rx' and x['ft'] == 'CANCEL' for x in mine) or any(x['ev'] == 'enq' and x['ft'] == 'ERROR' for x in mine)
+                peer_dir = peer_c or any(x['ev'] == 'enq' and x['ft'] == 'CANCEL' for x in mine) or any(x['ev'] == 'rx' and x['ft'] == 'ERROR' for x in mine)
+                if not (own_dir and peer_dir):
+                    both_ended = False
         sig['open_reasons'] = sorted(reasons)
         sig['retained_kinds'] = sorted(retained)     # kinds of the still-registered streams that did terminate
+        sig['all_directions_ended'] = bool(retained) and both_ended
         # did the library itself cancel the local producer of a still-registered stream although no CANCEL arrived on it?
         # (then that direction can never complete: different from a stream retained while the application is still sending)
         stuck = False
